@@ -38,13 +38,16 @@ pub fn generate_shape(tier: Tier) -> Vec<String> {
         for m in ms.iter().skip(k * per).take(per) {
             let words: Vec<&str> = WORDS.iter().enumerate().filter(|(i, _)| m >> i & 1 == 1).map(|(_, w)| *w).collect();
             src.push_str(&format!("#[derive(darling::FromDeriveInput)]\n#[darling(supports({}))]\npub struct S{m} {{}}\nimpl vrt::ToVal for S{m} {{ fn to_val(&self) -> vmodel::ir::Val {{ vmodel::ir::Val::Unit }} }}\n", words.join(", ")));
-            reg.push_str(&format!("    v.push(vrt::shape::ShapeEntry {{ mask: {m}, variant_receiver: false, run: vrt::run::run_from_derive_input::<S{m}> }});\n"));
+            reg.push_str(&format!("    v.push(vrt::shape::ShapeEntry {{ mask: {m}, variant_receiver: false, gathered: false, run: vrt::run::run_from_derive_input::<S{m}> }});\n"));
         }
         if k == 0 {
             for m in 0..32usize {
                 let words: Vec<&str> = VWORDS.iter().enumerate().filter(|(i, _)| m >> i & 1 == 1).map(|(_, w)| *w).collect();
                 src.push_str(&format!("#[derive(darling::FromVariant)]\n#[darling(supports({}))]\npub struct SV{m} {{}}\nimpl vrt::ToVal for SV{m} {{ fn to_val(&self) -> vmodel::ir::Val {{ vmodel::ir::Val::Unit }} }}\n", words.join(", ")));
-                reg.push_str(&format!("    v.push(vrt::shape::ShapeEntry {{ mask: {m}, variant_receiver: true, run: vrt::run::run_from_variant::<SV{m}> }});\n"));
+                reg.push_str(&format!("    v.push(vrt::shape::ShapeEntry {{ mask: {m}, variant_receiver: true, gathered: false, run: vrt::run::run_from_variant::<SV{m}> }});\n"));
+                // the same variant receiver gathered over a whole enum by a `data` member
+                src.push_str(&format!("#[derive(darling::FromDeriveInput)]\npub struct SD{m} {{ pub data: darling::ast::Data<SV{m}, darling::util::Ignored> }}\nimpl vrt::ToVal for SD{m} {{ fn to_val(&self) -> vmodel::ir::Val {{ vmodel::ir::Val::Unit }} }}\n"));
+                reg.push_str(&format!("    v.push(vrt::shape::ShapeEntry {{ mask: {m}, variant_receiver: true, gathered: true, run: vrt::run::run_from_derive_input::<SD{m}> }});\n"));
             }
         }
         src.push_str(&format!("fn entries() -> Vec<vrt::shape::ShapeEntry> {{\n    let mut v = vec![];\n{reg}    v\n}}\nfn main() {{ vrt::shape::main(entries()); }}\n"));
@@ -78,7 +81,7 @@ pub fn main(args: &Args) {
     let n = masks(args.tier).len();
     rep.set("supports_receivers", json!(n));
     rep.rule = format!(
-        "{n} compiled FromDeriveInput receivers, one per subset of the eleven shape words ({}), x bodies: 6 structs (four styles + empty braces / parens), every enum of 0..{} variants over the four styles, a union; 32 FromVariant receivers (all subsets of named/tuple/newtype/unit/any) x 4 variant shapes; the ShapeSet API: all 16 sets x 4 shapes x 4 carriers. Oracle: the documented table (any; additive words; tuple admits newtype; wrong kind rejected with one error; enum: exactly one error per non-conforming variant; union: error, never a crash) and API verdict == derived verdict. states = (declared set, body) pairs evaluated on the table model, all of them replayed on the compiled receivers; non-trivial = pairs the table rejects.",
+        "{n} compiled FromDeriveInput receivers, one per subset of the eleven shape words ({}), x bodies: 6 structs (four styles + empty braces / parens), every enum of 0..{} variants over the four styles, a union; 32 FromVariant receivers (all subsets of named/tuple/newtype/unit/any) x 4 variant shapes, and each of them gathered over whole enums by a `data: ast::Data<_, _>` member (one error per non-conforming variant); the ShapeSet API: all 16 sets x 4 shapes x 4 carriers. Oracle: the documented table (any; additive words; tuple admits newtype; wrong kind rejected with one error; enum: exactly one error per non-conforming variant; union: error, never a crash) and API verdict == derived verdict. states = (declared set, body) pairs evaluated on the table model, all of them replayed on the compiled receivers; non-trivial = pairs the table rejects.",
         if args.tier == Tier::Thorough { "all 2048" } else { "all of size <= 2 and their complements" },
         args.tier.pick(3, 4)
     );
@@ -89,5 +92,6 @@ pub fn main(args: &Args) {
     rep.require_counter("api_vs_derived");
     rep.require(rep.tally.counters.get("receivers").copied().unwrap_or(0) as usize == n, "not every receiver ran");
     rep.require(rep.tally.counters.get("variant_receivers").copied().unwrap_or(0) == 32, "variant receivers missing");
+    rep.require(rep.tally.counters.get("gathering_receivers").copied().unwrap_or(0) == 32, "gathering receivers missing");
     rep.finish()
 }
